@@ -28,7 +28,7 @@ def build_cases(ctx, want_equations=None):
             trees.append(r)
             stats[kind] += 1
 
-    for txt in gen.PATTERN_TEXTS + gen.rule_test_texts():
+    for txt in gen.PATTERN_TEXTS + gen.rule_test_texts() + gen.template_texts():
         try:
             t = core.to_tuple(core.parse_fresh(txt))
         except Exception:
@@ -256,7 +256,7 @@ def c09(ctx):
     )
     rng = random.Random(ctx.seed * 65537 + 9)
     quick = ctx.tier == "quick"
-    starts = list(dict.fromkeys(gen.PATTERN_TEXTS + gen.rule_test_texts()))
+    starts = list(dict.fromkeys(gen.PATTERN_TEXTS + gen.rule_test_texts() + gen.template_texts()[:: 3 if quick else 1]))
     for _ in range(150 if quick else 3000):
         t = gen.rand_tree(rng, rng.choice([2, 3, 3, 4]), allow_eq=rng.random() < 0.3)
         txt, r = gen.reachable(t)
